@@ -77,3 +77,13 @@ pub open spec fn ord_le(o: core::cmp::Ordering) -> bool { o != core::cmp::Orderi
 //@ assume std::<Ordering as PartialEq>::eq : std's `#[derive(PartialEq)]` on the field-less enum core::cmp::Ordering is structural equality
 pub assume_specification[ <core::cmp::Ordering as core::cmp::PartialEq>::eq ](a: &core::cmp::Ordering, b: &core::cmp::Ordering) -> (r: bool)
     ensures r == (*a == *b);
+
+//@ assume std::<usize as From<bool>>::from : std documentation: false -> 0, true -> 1
+pub assume_specification[ <usize as core::convert::From<bool>>::from ](b: bool) -> (r: usize)
+    ensures r == (if b { 1usize } else { 0usize });
+
+//@ assume std::<[T]>::split_last : std documentation: last element and the rest, None if empty
+pub assume_specification<T>[ <[T]>::split_last ](s: &[T]) -> (r: Option<(&T, &[T])>)
+    ensures
+        s@.len() == 0 ==> r is None,
+        s@.len() > 0 ==> r is Some && *r.unwrap().0 == s@[s@.len() - 1] && r.unwrap().1@ == s@.subrange(0, s@.len() - 1);
